@@ -69,14 +69,15 @@ Theorem C12_progress_refuted_before_fix :
       rs s' 0 1 = Queued /\ cst s' 0 <> CClosed /\ ph s' <> SRetDrained.
 Proof. exact ShutdownProofs.c12_progress_refuted_before_fix. Qed.
 
-(* 3. Close notification. Full statement: every connection the server closes has been sent the close message. *)
+(* 3. Close notification. Full statement: every connection the server closes before Shutdown returns has been sent
+   the close message. *)
 Definition C12_notification_statement : Prop :=
-  forall W cap early ls s, run W cap early init ls = Some s ->
+  forall W cap early ls s, run W cap early init ls = Some s -> returned (ph s) = false ->
   forall c, cst s c = CClosed -> notified s c = true.
 
 (* proved under the hypothesis that no poller tick began while the listener was still up (ghost earlypoll) *)
 Theorem C12_notification_partial : forall W cap early ls s, run W cap early init ls = Some s ->
-  earlypoll s = false -> forall c, cst s c = CClosed -> notified s c = true.
+  earlypoll s = false -> returned (ph s) = false -> forall c, cst s c = CClosed -> notified s c = true.
 Proof. exact ShutdownProofs.c12_notification_partial. Qed.
 
 (* the hypothesis is needed: a tick with isListenClosed = 0 closes an idle connection without the message *)
@@ -86,8 +87,14 @@ Proof. exact ShutdownProofs.c12_notification_refuted. Qed.
 (* the message precedes the close: it was already written in the state before the closing step *)
 Theorem C12_close_step_notified : forall W cap early ls s l s' c, run W cap early init ls = Some s ->
   step W cap early s l = Some s' -> cst s c <> CClosed -> cst s' c = CClosed -> earlypoll s' = false ->
-  notified s c = true.
+  returned (ph s') = false -> notified s c = true.
 Proof. exact ShutdownProofs.c12_close_step_notified. Qed.
+
+(* at the drained return every connection ever accepted has been sent the message *)
+Theorem C12_drained_return_notified : forall W cap early ls s s', run W cap early init ls = Some s ->
+  step W cap early s LPollReturn = Some s' -> earlypoll s' = false ->
+  forall c, In c (known s') -> notified s' c = true.
+Proof. exact ShutdownProofs.c12_drained_return_notified. Qed.
 
 (* after the first tick with the listener down every connection still in the table has the message *)
 Theorem C12_all_open_notified : forall W cap early ls s, run W cap early init ls = Some s -> listen s = 2 ->
@@ -129,6 +136,7 @@ Print Assumptions C12_progress_refuted_before_fix.
 Print Assumptions C12_notification_partial.
 Print Assumptions C12_notification_refuted.
 Print Assumptions C12_close_step_notified.
+Print Assumptions C12_drained_return_notified.
 Print Assumptions C12_all_open_notified.
 Print Assumptions C12_drained_return_sound.
 Print Assumptions C12_drained_return_enabled.
